@@ -73,7 +73,7 @@ def history_case(draw):
     t = draw(tree())
     ops = []
     for _ in range(draw(st.integers(1, 8))):
-        kind = draw(st.sampled_from(["modify", "modify", "delete", "delete_dir", "restore", "restore", "restore_tasks",
+        kind = draw(st.sampled_from(["modify", "modify", "delete", "delete_dir", "restore", "restore", "restore_tasks", "restore_tasks",
                                      "create_again", "reopen", "remodel", "add_file", "modify_quietly", "read_source"]))
         f = draw(st.sampled_from(sorted(t["files"])))
         ops.append({"op": kind, "file": f, "content": draw(st.sampled_from([tsv(2, "mod"), "", "x\ty\n1\t2\n"])),
